@@ -77,6 +77,19 @@ def build_harness(timeout=1500):
         return p.returncode == 0, p.stdout
 
 
+BINS = os.path.join(HARNESS, 'target-bins')
+
+
+def build_bins(timeout=1500):
+    """cargo build (dev profile) of /repo's own hulc2model and thor binaries, from its working tree"""
+    with Lock('cargo-bins'):
+        env = dict(os.environ, CARGO_NET_OFFLINE='true', CARGO_TARGET_DIR=BINS,
+                   RUSTFLAGS=os.environ.get('RUSTFLAGS', '') + ' -Awarnings')
+        p = subprocess.run(['timeout', str(timeout), 'cargo', 'build', '--offline', '-p', 'hulc2model', '-p', 'bemodel', '--bins'],
+                           cwd=REPO, stdout=subprocess.PIPE, stderr=subprocess.STDOUT, text=True, env=env)
+        return p.returncode == 0, p.stdout
+
+
 if __name__ == '__main__':
     what = sys.argv[1] if len(sys.argv) > 1 else 'all'
     t0 = time.time()
